@@ -1131,10 +1131,28 @@ def register_dispatch(reg):
         init_samplable(A)
         pred = z3.Function("mem3!pointset", _R, _R, _R, z3.BoolSort())
         A.fields.update(name="ps", orientation=None, _mem3=lambda p: SV(pred(*[toz3(c, want_real=True) for c in p])))
-        B = mk_abstract(I, "other", log)
+        other_is_point_set = eng.choose(2, "other: a region of another kind / another point set") == 1
+        if other_is_point_set:
+            B = PObj(RC("PointSetRegion"), tag="other")
+            init_samplable(B)
+            predB = z3.Function("mem3!pointset2", _R, _R, _R, z3.BoolSort())
+            B.fields.update(name="ps2", orientation=None, _mem3=lambda p: SV(predB(*[toz3(c, want_real=True) for c in p])))
+
+            def delegated_to_the_other_point_set(*a, **k):
+                # logged, not interpreted: a hand-over to another point set is itself the failure (the chain never ends)
+                log.append(("intersect", B, a, k, dict(op="intersect", target=B, args=a, kwargs=k)))
+                tok = PObj("AbstractRegion", tag="answer of the other point set")
+                init_samplable(tok)
+                tok.fields.update(name=None, orientation=None, _mem3=lambda p: sv_and(mem3(I, A, p), mem3(I, B, p)))
+                return tok
+
+            B.fields["intersect"] = BuiltinFn("intersect", delegated_to_the_other_point_set)
+        else:
+            B = mk_abstract(I, "other", log)
         tr = eng.choose(2, "triedReversed") == 1
         eng.input_syms.append(("triedReversed", C.Const(None), tr))
-        env.vars.update(self=A, other=B, triedReversed=tr, _log=log, _p=probe(I))
+        eng.input_syms.append(("other_is_a_point_set", C.Const(None), other_is_point_set))
+        env.vars.update(self=A, other=B, triedReversed=tr, _log=log, _p=probe(I), _ops=other_is_point_set)
 
     def post_ps(I, env, outcome):
         eng = I.eng
@@ -1147,11 +1165,18 @@ def register_dispatch(reg):
         if not ok:
             return
         eng.check(f"{oname}#ensures.set_semantics", iff(mem3(I, res, p), sv_and(mem3(I, A, p), mem3(I, B, p))))
-        if tr:
+        if tr or env.vars["_ops"]:
+            # the end of a dispatch chain: already reversed once, or two point sets (which would otherwise hand the
+            # call back and forth forever): no further delegation, the point-set sampler is used
             eng.check(f"{oname}#dispatch.no_second_reversal", not log)
             eng.check(f"{oname}#dispatch.generic_fallback_with_sampler", is_a(I, res, "IntersectionRegion") and tuple(res.fields["regions"]) == (A, B) and res.fields.get("sampler") is not None)
         else:
-            check_delegation(I, oname, log, "intersect", A, res)
+            # a region of another kind gets the first try, exactly once, with the operands swapped; it may be told that
+            # the reversal has happened (then it answers itself) or not (then it may hand the call back once, with the
+            # flag set, which ends the chain at the arm above): either way the chain is finite
+            calls = delegated(log, "intersect")
+            ok = len(calls) == 1 and calls[0][2] == (A,) and calls[0][3] in ({}, {"triedReversed": True}, {"triedReversed": False})
+            eng.check(f"{oname}#dispatch.other_operand_tried_exactly_once_with_the_operands_swapped", ok)
 
     def replay_ps(inputs, clause):
         R, Vector = _real_regions()
@@ -1159,8 +1184,14 @@ def register_dispatch(reg):
         b = R.PointSetRegion("b", [(0, 0, 0), (2, 2, 0)])
         import sys
 
+        old_limit = sys.getrecursionlimit()
         sys.setrecursionlimit(300)
-        a.intersect(b)  # the un-flagged reversal bounces between the two operands forever (RecursionError)
+        try:
+            a.intersect(b)  # an un-flagged reversal bounces between the two operands forever
+        except RecursionError:
+            return "PointSetRegion('a', [(0,0,0), (1,1,0)]).intersect(PointSetRegion('b', [(0,0,0), (2,2,0)])) never returns: the two point sets hand the call back and forth (RecursionError)"
+        finally:
+            sys.setrecursionlimit(old_limit)
         return None
 
     reg.add(C.Contract(f"{RG}:PointSetRegion.intersect", params=dict(self=C.Const(None), other=C.Const(None), triedReversed=C.Const(False)), setup=setup_ps, post=post_ps, inline_all=True, replay=replay_ps, properties=("C16",)))
